@@ -97,7 +97,7 @@ theorem inert_binToks (op : BinOp) (k : Nat) (term : Terminator) (rest : List To
 
 /-- parser level of the production that builds the node -/
 def _root_.RsslVerif.Model.FormatFull.XExpr.lvl : XExpr → Nat
-  | .lit _ => 0
+  | .lit l => if litNegative l then 2 else 0
   | .id _ => 0
   | .un op _ => if isPostfix op then 1 else 2
   | .bin op _ _ => binLevel op
@@ -121,6 +121,7 @@ theorem needParen_top_bin (op : BinOp) : needParen (binPrec op) topPrec topSide 
 theorem fmtSubX_eq (e : XExpr) (outer : Nat) (side : Side) :
     fmtSubX e outer side = wrap (needParen e.prec outer side) (fmtBodyX e) := by
   cases e with
+  | lit l => simp only [fmtBodyX, fmtSubX, XExpr.prec, needParen_top_lit, wrap_false]
   | un op x => simp only [fmtBodyX, fmtSubX, XExpr.prec, needParen_top_un, wrap_false]
   | bin op l r => simp only [fmtBodyX, fmtSubX, XExpr.prec, needParen_top_bin, wrap_false]
   | _ => simp only [fmtBodyX, fmtSubX, XExpr.prec]; rfl
@@ -130,6 +131,7 @@ theorem binLevel_ge (op : BinOp) : 3 ≤ binLevel op := by cases op <;> decide
 
 theorem lvl_le (e : XExpr) : e.lvl ≤ 15 := by
   cases e <;> simp [XExpr.lvl]
+  · split <;> omega
   · split <;> omega
   · exact binLevel_le _
 
